@@ -7,8 +7,8 @@
    FULL STATEMENT (for reference): with handlers that eventually return, every change reaches Done / Error / Undone /
    Hold; its status is the documented aggregate of the task statuses; once reported ready it is never reported in
    progress again; Err names every failed task.
-   PROVED BELOW: the aggregate is ready exactly when every task is ready; it equals the independent priority
-   statement when no task is in Wait; the ready flag is never reset, over every event list; over every history in
+   PROVED BELOW: the aggregate is ready exactly when every task is ready; it equals the independently written aggregate,
+   Wait branch included (C03_status_is_documented_aggregate); the ready flag is never reset, over every event list; over every history in
    which user aborts are issued on unready changes only (the property's quantifier): the engine never panics, the
    ready flag equals `every task is ready`, only unready tasks have a running handler, a user abort of an unready
    change never panics and never flags the change ready while a task is unready, and a ready change is final.
@@ -22,7 +22,7 @@
 From Coq Require Import List NArith ZArith Bool.
 Import ListNotations.
 Require Import V.models.TaskEngine V.proofs.TaskEngineProofs V.proofs.TaskEngineStatus V.proofs.TaskEngineReady
-               V.proofs.TaskEngineDoing V.proofs.TaskEngineFuel V.proofs.TaskEngineLive V.proofs.TaskEngineErr.
+               V.proofs.TaskEngineDoing V.proofs.TaskEngineFuel V.proofs.TaskEngineLive V.proofs.TaskEngineErr V.proofs.TaskEngineWait.
 
 (* Change.Status of a change with tasks is a ready status (Done, Undone, Hold, Error) iff every task is ready *)
 Theorem C03_status_ready_iff_all_tasks_ready : forall l : list task,
@@ -30,12 +30,40 @@ Theorem C03_status_ready_iff_all_tasks_ready : forall l : list task,
 Proof. exact change_status_ready. Qed.
 Print Assumptions C03_status_ready_iff_all_tasks_ready.
 
-(* PARTIAL (no task in Wait): the aggregate equals the independently written priority statement agg_spec: the first
-   status of  Abort Undoing Undo Doing Do Wait Error Undone Done Hold  that some task has; no tasks: Hold *)
-Theorem C03_status_is_documented_aggregate_partial : forall (g : list tdesc) (l : list task),
+(* The aggregate equals the independently written statement agg_spec - Wait branch included: Wait iff some task is in
+   Wait and every Do/Undo task is transitively blocked on Wait tasks (along wait edges for Do, halt edges for Undo;
+   memo-free, no early exits), otherwise the first status of  Abort Undoing Undo Doing Do Wait Error Undone Done Hold
+   that some task has; no tasks: Hold.
+   General form: any task list whose wait/halt lists are those of g, with wait edges and halt edges acyclic (rank
+   functions rk, rk2) and no Do task waiting for an Undo task / no Undo task waited for by a Do task. The memoised,
+   early-exit isTaskWaiting then only ever stores the value of the memo-free statement, and its cycle guard (the
+   `computing` mark) never fires. *)
+Theorem C03_status_is_documented_aggregate_general :
+  forall (g : list tdesc) (l : list task) (rk rk2 : nat -> nat),
+  length l = length g ->
+  (forall t, t_waits (nth t l dummy) = waits_g g t) -> (forall t, t_halts (nth t l dummy) = halts_of g t) ->
+  (forall t w, In w (waits_g g t) -> rk w < rk t) -> (forall t h, In h (halts_of g t) -> rk2 h < rk2 t) ->
+  (forall t d, stl l t = Do -> In d (waits_g g t) -> stl l d <> Undo) ->
+  (forall t d, stl l t = Undo -> In d (halts_of g t) -> stl l d <> Do) ->
+  change_status l = agg_spec g (map t_st l).
+Proof. exact change_status_is_aggregate. Qed.
+Print Assumptions C03_status_is_documented_aggregate_general.
+
+(* ... and all these hypotheses hold in every state reached by a tame history (user aborts on unready changes only; a
+   do handler that answers Wait waits to become Done) on a non-empty closed graph with acyclic wait edges: *)
+Theorem C03_status_is_documented_aggregate : forall (g : list tdesc) (rk : nat -> nat) (es : list event),
+  g <> [] -> closed g -> (forall t w, In w (waits_g g t) -> rk w < rk t) ->
+  tame (init_state g) es ->
+  let s := run_events (init_state g) es in
+  change_status (tasks s) = agg_spec g (map t_st (tasks s)).
+Proof. exact status_is_aggregate_reachable. Qed.
+Print Assumptions C03_status_is_documented_aggregate.
+
+(* without tasks in Wait no hypothesis on the graph or the state is needed *)
+Theorem C03_status_priority_aggregate_no_wait : forall (g : list tdesc) (l : list task),
   has_status l Wait = false -> change_status l = agg_spec g (map t_st l).
 Proof. exact change_status_is_priority_aggregate. Qed.
-Print Assumptions C03_status_is_documented_aggregate_partial.
+Print Assumptions C03_status_priority_aggregate_no_wait.
 
 (* over every event list from every state: once the change has been marked ready (channel closed, ready time set) it
    is never unmarked *)
